@@ -185,6 +185,51 @@ func runC16(c0 *Ctx) {
 		c.verdict(okv, c.nm(ev)+" | evicts from the back of the recency list", c.P.Pos(ev.Pos()), fmt.Sprintf("%d Remove(ll.Back()) site(s)", len(rm)), "evict removes an element that is not the one returned by ll.Back() (or removes nothing)", c.ats(rm)...)
 	})
 
+	c0.rule("C16.O2", "one element per key: when Put finds the key resident (the index lookup says so) the resident element is taken off the recency list before the new one is linked (List.Remove precedes List.PushFront on every path on which the lookup found the key; an error return on the way is the only other way out): an element left linked is counted, walked and later evicted under a key that was replaced, and its eviction removes the live entry from the index", func() {
+		c := c0.onCache()
+		pushFront := c.method("cache/lru", "List", "PushFront")
+		remove := c.method("cache/lru", "List", "Remove")
+		put := c.fn("(*cache/lru.Cache[K, V]).Put")
+		idx := c.field("cache/lru", "Cache", "cache")
+		loadM := c.method("cache/lru", "syncMap", "Load")
+		var loads []ssa.Instruction
+		ir.Instrs(put, func(in ssa.Instruction) {
+			cc := ir.CallOf(in)
+			if cc == nil || cc.IsInvoke() || !callTo(loadM)(in) || len(cc.Args) == 0 {
+				return
+			}
+			if fa, ok := ir.Strip(cc.Args[0]).(*ssa.FieldAddr); ok && ir.FieldOfAddr(fa) == idx {
+				loads = append(loads, in)
+			}
+		})
+		construct := c.nm(put) + " | a resident element is unlinked before the new one is linked"
+		if len(loads) != 1 {
+			c.undecided(construct, c.P.Pos(put.Pos()), fmt.Sprintf("%d lookups of the key index in Put, 1 tabled", len(loads)))
+			return
+		}
+		ld := loads[0].(ssa.Value)
+		oks := ir.Result(ld, 1)
+		if len(oks) == 0 {
+			c.fail(construct, c.at(loads[0]), "the index lookup's found-flag is not used: a resident element is never recognised")
+			return
+		}
+		facts := map[ssa.Value]bool{}
+		for _, o := range oks {
+			facts[o] = true
+		}
+		var bad []string
+		ir.WalkFacts(loads[0].Block(), ir.IndexIn(loads[0])+1, nil, nil, facts, func(in ssa.Instruction) bool {
+			if callTo(remove)(in) {
+				return false
+			}
+			if callTo(pushFront)(in) {
+				bad = append(bad, c.at(in))
+			}
+			return true
+		})
+		c.verdict(len(bad) == 0 && len(find(put, callTo(remove))) >= 1, construct, c.at(loads[0]), "with the key found, every path to List.PushFront passes List.Remove", "with the key found resident, List.PushFront at "+join(bad)+" is reachable without List.Remove of the resident element", c.at(loads[0]))
+	})
+
 	c0.rule("C16.G1", "capacity: Put adds the new entry's size and links it only after evict(vs)=nil and with vs <= capacity; evict returns success only once capacity-size >= needed and subtracts each evicted element's own Size()", func() {
 		c := c0.onCache()
 		put := c.fn("(*cache/lru.Cache[K, V]).Put")
